@@ -159,6 +159,19 @@ func namedStruct(idx int64) any {
 			Tags  []string
 		}
 		return Rec{"n", 5, []string{"t"}}
+	case 4:
+		// reached through a pointer, and holding a pointer to its own first field
+		type Node struct {
+			Head   int
+			Active *int
+			Name   string
+			Next   *Node
+		}
+		p := &Node{Head: 3, Name: "n"}
+		p.Active = &p.Head
+		p.Next = &Node{Head: 4, Name: "m"}
+		p.Next.Active = &p.Head
+		return p
 	}
 	type Rec struct{}
 	return Rec{}
